@@ -41,7 +41,11 @@ def prog_key(progs):
     return tuple(sorted(tuple(ic.call_key(c) for c in p) for p in progs))
 
 
-def make_cases(ctx, scheds, targeted_keys, thorough):
+def make_cases(ctx, scheds, thorough):
+    """schedules -> driver cases.  thorough: every schedule on every concrete kind of its (kind, origin), targeted
+    ones with 2, 4, 8 and 16 goroutines, the others with two of these.  quick: targeted schedules on every concrete
+    kind with 8 goroutines (and 2 on one kind); the others on one concrete kind and one goroutine count, both
+    rotating with the seed."""
     cases, seen = [], set()
     idx = ctx.seed
     for kind, origin, progs, targeted in scheds:
@@ -49,18 +53,25 @@ def make_cases(ctx, scheds, targeted_keys, thorough):
         if key in seen:
             continue
         seen.add(key)
-        for ck in ic.CONCRETE.get((kind, origin), []):
-            if targeted:
-                ns = NS if thorough else [2, 8]
-            else:
+        cks = ic.CONCRETE.get((kind, origin), [])
+        if not cks:
+            continue
+        idx += 1
+        plan = []
+        if thorough:
+            for ck in cks:
                 idx += 1
-                ns = [NS[idx % 4], NS[(idx + 2) % 4]] if thorough else [NS[idx % 4]]
-            for n in ns:
-                glob = origin == "global"
-                cases.append(dict(mode="race", kind=kind, ckind=ck, origin=origin, progs=progs, n=n, seed=ctx.seed,
-                                  trials=(3 if glob else (150 if thorough else 25)),
-                                  procs=((16 if thorough else 4) if glob else (2 if thorough else 1)),
-                                  targeted=targeted))
+                plan += [(ck, n) for n in (NS if targeted else [NS[idx % 4], NS[(idx + 2) % 4]])]
+        elif targeted:
+            plan = [(ck, 8) for ck in cks] + [(cks[idx % len(cks)], 2)]
+        else:
+            plan = [(cks[idx % len(cks)], NS[idx % 4])]
+        glob = origin == "global"
+        for ck, n in plan:
+            cases.append(dict(mode="race", kind=kind, ckind=ck, origin=origin, progs=progs, n=n, seed=ctx.seed,
+                              trials=(3 if glob else (150 if thorough else 25)),
+                              procs=((16 if thorough else 4) if glob else (2 if thorough else 1)),
+                              targeted=targeted))
     return cases
 
 
@@ -83,16 +94,33 @@ def run(ctx):
     th = threading.Thread(target=do_build)
     th.start()
 
-    r, recs = ic.tlc_export(ctx, "instance_c13_thorough.cfg" if thorough else "instance_c13_quick.cfg", "c13", workers=8,
-                            timeout=3000)
+    main = {}
+
+    def do_main():
+        try:
+            if thorough:
+                # three goroutines, one call each; and two goroutines, two calls each (second calls meet filled caches)
+                r1, recs1 = ic.tlc_export(ctx, "instance_c13_thorough.cfg", "c13a", workers=8, timeout=3000)
+                r2, recs2 = ic.tlc_export(ctx, "instance_c13_thorough2.cfg", "c13b", workers=8, timeout=3000)
+                ctx.log("InstanceMC (C13, 3x1):", r1, " (2x2):", r2)
+                main["r"] = (r2, recs1 + recs2)
+            else:
+                main["r"] = ic.tlc_export(ctx, "instance_c13_quick.cfg", "c13", workers=4, timeout=3000)
+        except Exception as e:      # noqa: BLE001
+            main["err"] = e
+    tm = threading.Thread(target=do_main)
+    tm.start()
+    wit = ic.deviations(ctx, "instance_dev_par.cfg", DEV_PAR)
+    tm.join()
+    th.join()
+    for d in (main, build):
+        if "err" in d:
+            raise d["err"]
+    r, recs = main["r"]
     ctx.log("InstanceMC (C13):", r, "terminal states:", len(recs))
     if not recs:
         raise common.Infra("InstanceMC exported no schedules")
     ctx.exhaustive = True
-    wit = ic.deviations(ctx, "instance_dev_par.cfg", DEV_PAR)
-    th.join()
-    if "err" in build:
-        raise build["err"]
     drv = build["bin"]
 
     scheds = []
@@ -107,15 +135,15 @@ def run(ctx):
         sched = rec["sched"]
         sched = list(sched.values()) if isinstance(sched, dict) else sched
         scheds.append((rec["kind"], rec["origin"], [[ic.call_of(e) for e in seq] for seq in sched], False))
-    cases = make_cases(ctx, scheds, None, thorough)
+    cases = make_cases(ctx, scheds, thorough)
     # the package-level meta-schemas: describing and rebuilding concurrently (beyond the model: detector only)
     cases += [dict(mode="race", kind="meta", ckind="meta", origin="fresh", progs=[[dict(op="describe_rebuild", tok="-", m=None, exp=[])]],
                    n=n, trials=(40 if thorough else 8), procs=(4 if thorough else 2), seed=ctx.seed, targeted=False) for n in (2, 8, 16)]
     ctx.log("schedules: %d distinct (%d from deviation witnesses) -> %d cases" % (
         len({(k, o, prog_key(p)) for k, o, p, _ in scheds}), ntarget, len(cases)))
 
-    ic.consume(ctx, [dict(mode="bind")], ic.run_driver(ctx, drv, [dict(mode="bind")], "bind", jobs=1), need_race=True)
-    results = ic.run_driver(ctx, drv, cases, "race", jobs=min(14, common.NCPU), timeout=3000, env={"GOMAXPROCS": "4"})
+    ic.consume(ctx, [dict(mode="bind")], ic.run_driver(ctx, drv, [dict(mode="bind")], "bind", jobs=1, env={"GORACE": "atexit_sleep_ms=0"}), need_race=True)
+    results = ic.run_driver(ctx, drv, cases, "race", jobs=min(14, common.NCPU), timeout=3000, env={"GOMAXPROCS": "4", "GORACE": "atexit_sleep_ms=0"})
     trace = ic.consume(ctx, cases, results, need_race=True)
     ctx.traces += len(cases)
     trials = sum(x["res"].get("trials", 0) for x in results)
@@ -157,7 +185,7 @@ def replay(ctx, rp):
     if case.get("mode") == "race":
         case = dict(case, trials=max(case.get("trials", 1), 3 if case["origin"] == "global" else 200),
                     procs=max(case.get("procs", 1), 12 if case["origin"] == "global" else 2))
-    results = ic.run_driver(ctx, drv, [case], "replay", jobs=1, timeout=1500, env={"GOMAXPROCS": "4"})
+    results = ic.run_driver(ctx, drv, [case], "replay", jobs=1, timeout=1500, env={"GOMAXPROCS": "4", "GORACE": "atexit_sleep_ms=0"})
     trace = ic.consume(ctx, [case], results, need_race=True)
     ic.validate_trace(ctx, trace, "replay", concurrent=True)
     ctx.traces += 1
